@@ -16,8 +16,10 @@ func seedKinds() map[string][]Node {
 		"500":    {{URL: H + "/boom", Kind: "fail5xx"}},
 		// redirections that lead back onto the path from the seed: a cookie wall (the URL redirects to itself once,
 		// then serves the page), a loop of two, a chain that ends on its own first URL
-		"wall":     {{URL: H + "/wall", Kind: "wall"}},
-		"loop":     {{URL: H + "/x", Kind: "redirect", Code: 302, Location: H + "/y"}, {URL: H + "/y", Kind: "redirect", Code: 302, Location: "/x"}},
+		"wall": {{URL: H + "/wall", Kind: "wall"}},
+		"loop": {{URL: H + "/x", Kind: "redirect", Code: 302, Location: H + "/y"}, {URL: H + "/y", Kind: "redirect", Code: 302, Location: "/x"}},
+		// a loop that does not pass through the seed: /s -> /b -> /c -> /b
+		"loopb":    {{URL: H + "/s", Kind: "redirect", Code: 302, Location: H + "/b"}, {URL: H + "/b", Kind: "redirect", Code: 302, Location: "/c"}, {URL: H + "/c", Kind: "redirect", Code: 302, Location: H + "/b"}},
 		"badpdf":   {{URL: H + "/doc.pdf", Kind: "badpdf"}},
 		"emptyxml": {{URL: H + "/sitemap.xml", Kind: "emptyxml"}},
 		"nodot":    {},
@@ -25,7 +27,7 @@ func seedKinds() map[string][]Node {
 	}
 }
 
-var seedURL = map[string]string{"wall": H + "/wall", "loop": H + "/x", "page": H + "/page", "redir1": H + "/r1", "redir2": H + "/r2", "404": H + "/gone", "500": H + "/boom",
+var seedURL = map[string]string{"loopb": H + "/s", "wall": H + "/wall", "loop": H + "/x", "page": H + "/page", "redir1": H + "/r1", "redir2": H + "/r2", "404": H + "/gone", "500": H + "/boom",
 	"badpdf": H + "/doc.pdf", "emptyxml": H + "/sitemap.xml",
 	"nodot": "http://nodot/x", "excluded": "http://web.archive.org/web/x"}
 
@@ -89,7 +91,7 @@ func MkSite(name, seedKind string, assets []string) SiteDef {
 func SweepSites(tier string) []SiteDef {
 	var out []SiteDef
 	akeys := []string{"bin", "samepage", "js", "exhost", "404", "500", "redir", "redirB", "redirEx", "m3u8", "slash", "flaky", "429", "cut", "badpdf", "emptyxml", "redirSeed", "redirSelf"}
-	for _, sk := range []string{"404", "500", "nodot", "excluded", "badpdf", "emptyxml", "loop", "wall"} {
+	for _, sk := range []string{"404", "500", "nodot", "excluded", "badpdf", "emptyxml", "loop", "loopb", "wall"} {
 		out = append(out, MkSite("seed="+sk, sk, nil))
 	}
 	for _, a := range akeys {
